@@ -120,8 +120,9 @@ type Client struct {
 	// Tainted is set when the connection ran into known finding F-3 (an
 	// unsubscribe accepted on a provisional count): from then on the frame-driven
 	// model and the gateway legitimately disagree about this connection.
-	Tainted string
-	Failed  string
+	Tainted  string
+	Failed   string
+	pendingD []pendingDangling
 	// F3rids: rids on which an unsubscribe request was accepted on a provisional count
 	F3rids      map[string]bool
 	failedProps map[string]bool
@@ -552,7 +553,12 @@ func (c *Client) checkRefs(f *Frame) {
 				// while the client, which cannot know about that count, dropped it
 				sh = "missing-root-previously-held"
 			}
-			c.violate("C02", "a", sh, "client %s is directly subscribed to %s but was never given its data or an error placeholder (after frame %s)", c.Name, rid, trunc(f.Raw, 300))
+			msg := fmt.Sprintf("client %s is directly subscribed to %s but was never given its data or an error placeholder (after frame %s)", c.Name, rid, trunc(f.Raw, 300))
+			if sh == "missing-root" {
+				c.deferDangling(sh, rid, f, msg)
+			} else {
+				c.violate("C02", "a", sh, "%s", msg)
+			}
 			return
 		}
 	}
@@ -581,11 +587,64 @@ func (c *Client) checkRefs(f *Frame) {
 					c.violate("C02", "a", "dangling-previously-held", "client %s holds %s with a reference to %s which it held earlier and has dropped, but which the gateway still treats as sent (after frame %s)", c.Name, rid, x, trunc(f.Raw, 300))
 					return
 				}
-				c.violate("C02", "a", "dangling"+c.resentSuffix(c.Cache[rid]), "client %s holds %s with a reference to %s for which it has neither data nor an error placeholder (after frame %s)", c.Name, rid, x, trunc(f.Raw, 300))
+				c.deferDangling("dangling"+c.resentSuffix(c.Cache[rid]), x, f, fmt.Sprintf("client %s holds %s with a reference to %s for which it has neither data nor an error placeholder (after frame %s)", c.Name, rid, x, trunc(f.Raw, 300)))
 				return
 			}
 		}
 	}
+}
+
+type pendingDangling struct {
+	shape string
+	rid   string
+	seq   uint64
+	step  int
+	msg   string
+}
+
+// deferDangling postpones the classification of a missing resource to the end
+// of the run: whether the gateway was (re)fetching it at that moment (known
+// finding F-16) shows only in the get request it sends afterwards.
+func (c *Client) deferDangling(shape, rid string, f *Frame, msg string) {
+	if c.failedProps == nil {
+		c.failedProps = map[string]bool{}
+	}
+	if c.failedProps["C02"] {
+		return
+	}
+	c.failedProps["C02"] = true
+	if c.Failed == "" {
+		c.Failed = "C02/a/" + shape
+	}
+	c.pendingD = append(c.pendingD, pendingDangling{shape, rid, f.Seq, f.Step, msg})
+}
+
+// finalizeDangling emits the postponed C02.a violations.
+func (c *Client) finalizeDangling() {
+	for _, p := range c.pendingD {
+		name, _ := splitRID(c.expandCID(p.rid))
+		loading := false
+		c.s.mu.Lock()
+		for _, q := range c.s.tr.reqs {
+			if q.Type == "get" && q.Name == name && q.Seq > p.seq {
+				loading = true
+			}
+		}
+		c.s.mu.Unlock()
+		shape := p.shape
+		if loading {
+			// known finding F-16: the gateway sent the get request for it only after
+			// that frame: the resource was being (re)created and was not waited for
+			shape = strings.TrimSuffix(strings.TrimSuffix(p.shape, "-resent"), "") + "-child-loading"
+			if strings.HasPrefix(p.shape, "missing-root") {
+				shape = "missing-root-child-loading"
+			} else {
+				shape = "dangling-child-loading"
+			}
+		}
+		c.s.violateAt("C02", "a", shape, p.step, "%s", p.msg)
+	}
+	c.pendingD = nil
 }
 
 func trunc(s string, n int) string {
